@@ -555,9 +555,46 @@ static void run_con(int ntok, char **tok)
 	if (sv[1] >= 0) close(sv[1]);
 	if (own0 && sv[0] >= 0) close(sv[0]);
 }
+/* <id> rsv <max> r|f<k> ...   direct calls of mpt_command_reserve(arr, max) on a private array (every width of the switch);
+ * r = reserve (the slot gets the harness' waiter with the number of the call), f<k> = the caller releases slot k.
+ * token: <slot>:<id> (N = refused, - = release) | table */
+static void run_rsv(int ntok, char **tok)
+{
+	MPT_STRUCT(array) arr = MPT_ARRAY_INIT;
+	size_t max = vh_int(tok[2]);
+	int t, n = 0;
+	for (t = 3; t < ntok; t++) {
+		MPT_STRUCT(buffer) *b;
+		if (tok[t][0] == 'r') {
+			MPT_STRUCT(command) *c = mpt_command_reserve(&arr, max);
+			n++;
+			if (!c) vh_tok("N");
+			else {
+				c->cmd = (int (*)()) waiter;
+				c->arg = (void *) (intptr_t) n;
+				vh_tok("%d:%llx", (int) (c - (MPT_STRUCT(command) *) (arr._buf + 1)), (unsigned long long) c->id);
+			}
+		} else {
+			size_t k = vh_int(tok[t] + 1);
+			if ((b = arr._buf) && k < b->_used / sizeof(MPT_STRUCT(command))) ((MPT_STRUCT(command) *) (b + 1))[k].cmd = 0;
+			vh_tok("-");
+		}
+		vh_add("|");
+		if ((b = arr._buf) && b->_used) {
+			MPT_STRUCT(command) *c = (void *) (b + 1);
+			size_t k, len = b->_used / sizeof(*c);
+			for (k = 0; k < len; k++) {
+				if (!c[k].cmd) vh_add("%s%llx=.", k ? "," : "", (unsigned long long) c[k].id);
+				else vh_add("%s%llx=%d", k ? "," : "", (unsigned long long) c[k].id, (int) (intptr_t) c[k].arg);
+			}
+		} else vh_add("-");
+	}
+	{ MPT_STRUCT(buffer) *b = arr._buf; if (b) { b->_used = 0; mpt_array_clone(&arr, 0); } }
+}
 static void run_case(int ntok, char **tok)
 {
 	if (ntok >= 4 && !strcmp(tok[1], "con")) run_con(ntok, tok);
+	else if (ntok >= 3 && !strcmp(tok[1], "rsv")) run_rsv(ntok, tok);
 	else vh_tok("?case");
 }
 int main(int argc, char **argv)
